@@ -396,3 +396,55 @@ def run(ctx):
                 r7.ok("%s: every variable the received length is stored in can hold %d" % (f.qname, cap), "type range vs. buffer size")
     if nrecv < 1:
         raise Broken("C20.R7: no xcm_receive with a constant capacity in the relay")
+
+    # ------------------------------------------------------------------ R8
+    # the XCM API's contract for the descriptor: when xcm_fd() is readable, the application calls send, receive,
+    # finish (accept on a server socket).  A handler that returns without entering the library leaves the library's own
+    # pending work (a partly flushed message, a handshake) undone while the level-triggered descriptor stays readable:
+    # the held data never leaves and the loop spins
+    r8 = ctx.rule("C20.R8", "every activation of a leg's descriptor enters the XCM library on every path of the handler")
+    ENTER = ("xcm_send", "xcm_receive", "xcm_finish", "xcm_accept", "xcm_accept_a", "xcm_close")
+    handlers = set()
+    for f in P.functions:
+        if not f.file.startswith("tools/xcmrelay/"):
+            continue
+        for c in f.calls():
+            n = f.nodes[c]
+            if n.get("callee") not in ("event_assign", "event_new") or len(n["args"]) < 5:
+                continue
+            cb = f.sn(n["args"][-2])
+            if cb["k"] == "ref" and cb.get("dk") == "function":
+                fdn = f.nodes[f.origin(n["args"][-4])]
+                if fdn["k"] == "call" and fdn.get("callee") == "xcm_fd":
+                    handlers.add(cb["name"])
+    if len(handlers) < 2:
+        raise Broken("C20.R8: only %d handlers registered on an xcm_fd() (%s)" % (len(handlers), sorted(handlers)))
+    for hn in sorted(handlers):
+        h = P.fn(hn)
+        r8.instance(h.qname)
+        bad = []
+
+        class Enters(S.SeqRule):
+            max_depth = 3
+
+            def user0(s2, fn):
+                return False
+
+            def inline(s2, fn, nid, callee):
+                return callee.file.startswith("tools/xcmrelay/")
+
+            def on_call(s2, fn, st, nid, callees, exts):
+                if any(x in ENTER for x in exts) or any(d.name in ENTER for d in callees):
+                    return True
+                return None
+
+            def on_exit(s2, fn, st, ret_nid, ret_cls, top):
+                if top and not st.user and not bad:
+                    bad.append(ret_nid)
+        S.run(Enters(P), h)
+        if bad:
+            r8.violation("%s:returns-without-entering-xcm" % h.name, "%s can return without calling send, receive, finish or accept on a connection: the library's pending work on "
+                         "the active descriptor (the unflushed rest of a message, a handshake) is not done, the other side never gets the data and the "
+                         "level-triggered descriptor keeps the loop busy" % h.name, loc=h.loc(bad[0]) if bad[0] is not None else h.file)
+        else:
+            r8.ok("%s: every path calls into the XCM library" % h.qname, "path exploration with the relay's helpers inlined")
